@@ -1,3 +1,4 @@
+import Psa.ExpectedFacts
 import Psa.Config
 import Psa.ApiProofs
 /-! # C17 — configuration loads strictly, defaults safely, and is version-independent
@@ -272,6 +273,12 @@ theorem C17_chain (c : Cfg) (h : validate c = []) :
     ⟨(parseLevel c.defaults.warn).1, (parseVersion c.defaults.warnVersion).1⟩⟩, ?_, rfl, rfl, rfl, rfl⟩
   simp [toPolicy, ne _ h1, ne _ h3, ne _ h5, nv _ h2, nv _ h4, nv _ h6, h1, h2, h3, h4, h5, h6]
 
+/-- tie obligation (F9): loading, defaulting, validating and converting a configuration write no state that outlives the
+    call (no package-level cache, no sync.Once, nothing through a receiver) — two loads cannot influence each other -/
+theorem C17_loader_keeps_no_state :
+    Generated.stateWrites.filter (fun w => w.1 = b!"admission/api" ∨ w.1 = b!"admission/api/load" ∨ w.1 = b!"admission/api/validation") = [] := by
+  decide
+
 #print axioms loadDoc_withVersion
 #print axioms C17_versions
 #print axioms C17_defaults
@@ -282,4 +289,5 @@ theorem C17_chain (c : Cfg) (h : validate c = []) :
 #print axioms validateList_nil_iff
 #print axioms C17_validate_iff
 #print axioms C17_chain
+#print axioms C17_loader_keeps_no_state
 end PSA.Props
